@@ -37,7 +37,7 @@ CHECKS = {
 
 CHECKS["C05"] = dict(
    level="fault_enumeration",
-   text="Typed value trees drawn model-first (every serde data-model entry point, strings placed 0..40 bytes before an unmapped page) are serialized compact and pretty through every supported writer stack (to_string/to_vec, &mut Vec, Box, BytesMut writers, BufferedWriter, io::BufWriter with several capacities, a user WriteExt whose reserved window ends at an unmapped page, and nestings). Fault-free output must equal the reference rendering byte for byte (float tokens by value), be valid UTF-8 and well-formed JSON, and pretty must equal compact re-indented. Under an injected writer fault (permanent error or Ok(0) after n bytes, error at call c, reserve_with/flush_len error; transient short writes and EINTR on top) the call must return Err and the bytes the sink accepted must be a prefix of the correct output. Quick: one drawn fault point per run (plus a small Miri sample); thorough: every byte offset and call index enumerated per value for every fault kind, and a Miri sample of the same runs.",
+   text="Typed value trees drawn model-first (every serde data-model entry point, strings placed 0..40 bytes before an unmapped page) are serialized compact and pretty through every supported writer stack (to_string/to_vec, &mut Vec, Box, BytesMut writers, BufferedWriter, io::BufWriter with several capacities, a user WriteExt whose reserved window ends at an unmapped page, and nestings). Fault-free output must equal the reference rendering byte for byte (float tokens by value), be valid UTF-8 and well-formed JSON, and pretty must equal compact re-indented. Under an injected writer fault (permanent error or Ok(0) after n bytes, error at call c, reserve_with/flush_len error; transient short writes and EINTR on top) the call must return Err and the bytes the sink accepted must be a prefix of the correct output. Quick: one drawn fault point per run (plus a small Miri sample); thorough: every byte offset and call index enumerated per value for every fault kind (outputs longer than 1.5 KB: the first and last 400 offsets and 700 evenly spread ones), and a Miri sample of the same runs.",
    design_ref="DESIGN.md section 3 (C05), section 2.5",
    note="Trusted: the reference escaper/re-indenter (self-tested), std io::BufWriter, bytes, itoa, ryu (float spelling is compared by value only). Exhaustive over fault positions per generated value, sampled over values. Hash-ordered (mutated) objects are not embedded.",
    technique="deterministic simulation: fault-injecting writer seams (short write, EINTR, permanent error, Ok(0), reserve/flush_len failure) with guard pages; seeded values, enumerated fault positions",
